@@ -174,7 +174,9 @@ def r12_1(ctx):
     else:
         ctx.bad("R12.1", cd.module, cd.qual, norm(up[0].args[1], 100), "sequences upsert binds its six placeholders in another order: flags are stored under another sequence / mailbox", up[0].lineno)
     rs = [s for s in body_walk(rd.node) if isinstance(s, ast.AsyncFor) and "select name, sequence from sequences" in norm(s.iter, 300).lower()]
-    if rs and any(isinstance(b, ast.Assign) and isinstance(b.targets[0], ast.Tuple) and len(b.targets[0].elts) == 2 and norm(b.value) == norm(rs[0].target) and _seq_row_use(rd, b) for b in rs[0].body):
+    # the row is unpacked in a statement (`name, sequence = row`) or in the loop target itself
+    in_target = bool(rs) and isinstance(rs[0].target, ast.Tuple) and len(rs[0].target.elts) == 2 and _seq_row_use(rd, ast.Assign(targets=[rs[0].target], value=ast.Constant(None)))
+    if rs and (in_target or any(isinstance(b, ast.Assign) and isinstance(b.targets[0], ast.Tuple) and len(b.targets[0].elts) == 2 and norm(b.value) == norm(rs[0].target) and _seq_row_use(rd, b) for b in rs[0].body)):
         ctx.ok("R12.1", where(rd), "SELECT name, sequence -> (name, sequence)")
     else:
         ctx.bad("R12.1", rd.module, rd.qual, "name, sequence = row", "sequence rows are unpacked in another order than selected", rd.node.lineno)
@@ -300,6 +302,11 @@ def r12_5(ctx):
         # left: filled from SELECT name FROM sequences; right: names of the in-memory sequences
         lname = norm(l)
         from_db = any(isinstance(a, ast.AsyncFor) and "select name from sequences" in norm(a.iter, 300).lower() and any(f"{lname}.add(" in norm(b) for b in a.body) for a in body_walk(cd.node))
+        # ... or built in one go by a comprehension over the same query
+        from_db = from_db or any(
+            isinstance(s2, ast.Assign) and norm(s2.targets[0]) == lname and any(isinstance(c2, (ast.SetComp, ast.ListComp, ast.GeneratorExp)) and "select name from sequences" in norm(c2.generators[0].iter, 300).lower() for c2 in ast.walk(s2.value))
+            for s2 in body_walk(cd.node)
+        )
         rdef = [s2 for s2 in body_walk(cd.node) if isinstance(s2, ast.Assign) and norm(s2.targets[0]) == norm(r)]
         from_mem = bool(rdef) and "self.sequences" in norm(rdef[0].value, 300)
         okv = from_db and from_mem
